@@ -62,4 +62,51 @@ theorem nc15a_repaired :
     r.isOk = true ∧ (0, "a") ∉ keys r.state.cols ∧ (1, "a") ∈ keys r.state.cols := by
   decide
 
+/-! ### NC15c (open): a second wrapper object of a field is not told when the field is moved away through another object -/
+
+/-- frames x, y; column x.b (field object 0); `w = ds['x']['b'].writeable()` (field object 1) -/
+def xyw : List Op := [.createFrame 0 "x" none, .createFrame 0 "y" none, .create 0 "x" "b" ⟨.indexed, 2⟩, .view (.byHandle 0)]
+
+/-- both objects wrap the same group; both are valid and report the name -/
+theorem nc15c_view_aliases :
+    let s := run .repaired State.init xyw
+    (s.handles[1]?).map (·.oid) = (s.handles[0]?).map (·.oid) ∧ viewHandle s 0 = .named "b" ∧ viewHandle s 1 = .named "b" := by
+  decide
+
+/-- NC15c: `dataframe.move(ds['x']['b'], ds['y'], 'b')` flags the object it was handed (0) and nothing else: the view (1)
+    keeps `_valid_reference = True` while its group is no longer linked — `w.valid` is True and `w.name` raises
+    (`HandleView.unlinked`, the harness's "attribute_error"). The move itself is fine: the catalogue is consistent. -/
+theorem nc15c_stale_view :
+    let r := step .repaired (run .repaired State.init xyw) (.moveField (.byName 0 "x" "b") 0 "y" "b")
+    r.isOk = true ∧ viewHandle r.state 0 = .invalid ∧
+    (r.state.handles[1]?).map (·.valid) = some true ∧ viewHandle r.state 1 = .unlinked ∧
+    (0, "b") ∉ keys r.state.cols ∧ (1, "b") ∈ keys r.state.cols := by
+  decide
+
+/-- … and the other way round: moved through the view, the view is flagged and the stored object is left valid and dangling. -/
+theorem nc15c_stale_original :
+    let r := step .repaired (run .repaired State.init xyw) (.moveField (.byHandle 1) 0 "y" "b")
+    r.isOk = true ∧ viewHandle r.state 1 = .invalid ∧
+    (r.state.handles[0]?).map (·.valid) = some true ∧ viewHandle r.state 0 = .unlinked := by
+  decide
+
+/-- a rename, by contrast, is seen by every wrapper: the name is read from the group -/
+theorem views_follow_rename_example :
+    let r := step .repaired (run .repaired State.init xyw) (.rename 0 "x" [("b", "a")])
+    r.isOk = true ∧ viewHandle r.state 0 = .named "a" ∧ viewHandle r.state 1 = .named "a" := by
+  decide
+
+/-- NC15b (fixed 18216aa): the writeable view of a numeric field had `dataframe = None`; a move through it copied, then raised -/
+def xyn2 : List Op := [.createFrame 0 "x" none, .createFrame 0 "y" none, .create 0 "x" "a" ⟨.numeric, 1⟩, .view (.byHandle 0)]
+
+theorem nc15b_asFound :
+    let r := step .asFound (run .asFound State.init xyn2) (.moveField (.byHandle 1) 0 "y" "ab")
+    r.isOk = false ∧ (0, "a") ∈ keys r.state.cols ∧ (1, "ab") ∈ keys r.state.cols ∧ viewHandle r.state 1 = .named "a" := by
+  decide
+
+theorem nc15b_repaired :
+    let r := step .repaired (run .repaired State.init xyn2) (.moveField (.byHandle 1) 0 "y" "ab")
+    r.isOk = true ∧ (0, "a") ∉ keys r.state.cols ∧ (1, "ab") ∈ keys r.state.cols ∧ viewHandle r.state 1 = .invalid := by
+  decide
+
 end Exetera.Witness.C15
